@@ -25,13 +25,16 @@ PROPERTIES_V = "theories/Properties/C05.v"
 CASE_IMPORTS = "From GV Require Import Prelude.Base Model.PGroups Model.Removal.\nFrom GVgen Require Import C05Cfg."
 ALLOWED_AXIOMS: list = []
 REFUTED = [
-    "C05_no_dangling_refuted (pinned remove_data_from_groups: a group emptied during the loop makes the loop skip the next group)",
-    "C05_file_exact_via_parent_refuted (parent.remove_children leaves the flat node)",
-    "C05_old_rec_refuted (pre-repair remove_recursively; the repaired loop is what the tree has now)",
+    "C05_no_dangling_refuted (pinned remove_data_from_groups: a group emptied during the loop makes the loop skip the next "
+    "group; the checked tree must have the snapshot loop: C05_checked_tree_is_repaired)",
+    "C05_old_rec_refuted (pre-repair remove_recursively skipped every second child of an object)",
+    "C05_file_exact_via_parent_refuted (parent.remove_children leaves the flat node; open finding)",
+    "C05_protected_descendant_partial_effect (a protected descendant refuses the request half-way; open finding)",
 ]
 PARTIAL = [
-    "C05_no_dangling_partial (exact side condition no_skip)",
-    "C05_remove_exact (tree level; file level only for removal through the workspace)",
+    "C05_no_dangling_partial / C05_no_dangling_iff (pinned loop: exact side condition no_skip)",
+    "C05_ws_removal_file_exact (file level only for removal through the workspace; removal through the parent is refuted)",
+    "C05_survivors_removal_total (copy of a survivor is compared with the code, not proved)",
 ]
 TRUSTED = [
     "Coq 8.16.1 kernel + vm_compute (correspondence evaluation, refutation witnesses); no axioms",
@@ -57,10 +60,14 @@ RULE = (
     "a removal of an entity that has descendants or belongs to a property group"
 )
 LEVEL_TEXT = (
-    "Proved for all histories / all lists: tree-level exactness of removal through the workspace (prune), refusal changes "
-    "nothing, the exact characterisation of when remove_data_from_groups leaves a dangling member (iff no_skip fails), "
-    "no dangling member with the snapshot loop; refuted with witnesses replayed on the code: dangling member after an emptied "
-    "group, flat node left by removal through the parent. Tie: correspondence on histories + loop headers read from the ast."
+    "Proved in Coq for all histories of create/add-data/property-group/allow_delete/remove (both entry points)/drop/listing/lookup "
+    "operations: well-formedness invariant of reachable states; ws.remove_entity prunes exactly the subtree at tree level and "
+    "(repaired remove_recursively) deletes exactly the subtree's nodes from the flat containers; after a data removal no property "
+    "group lists it (snapshot loop), with the exact condition no_skip for the pinned loop (iff); refusal changes nothing; further "
+    "removals on survivors always end Ok/Refused. Refuted with witnesses replayed on the code: pinned group loop, pre-repair "
+    "children loop, removal through the parent leaving flat nodes (open), refusal half-way on a protected descendant (open). "
+    "Tie: loop headers read from the ast + behavioural probe on every run, and correspondence of per-operation memory/registry/"
+    "raw-HDF5 observations, the state after close/re-open and copy outcomes on generated histories."
 )
 TECHNIQUE = "Coq model of removal with explicit iteration-under-mutation semantics + invariant proofs + differential histories"
 
